@@ -1,0 +1,53 @@
+//go:build verif
+
+package index
+
+import (
+	"context"
+
+	"github.com/ipld/go-storethehash/store/types"
+)
+
+// Verification-only accessors (build tag verif). They add white-box
+// observation for the checks in /verif and change no existing behaviour.
+
+// VerifGC runs one index GC cycle synchronously.
+func (idx *Index) VerifGC(ctx context.Context, scanFree bool) (int64, int, error) {
+	return idx.gc(ctx, scanFree)
+}
+
+// VerifBuckets returns a copy of the in-memory bucket table.
+func (idx *Index) VerifBuckets() []types.Position {
+	idx.bucketLk.RLock()
+	defer idx.bucketLk.RUnlock()
+	out := make([]types.Position, len(idx.buckets))
+	copy(out, idx.buckets)
+	return out
+}
+
+// VerifBucketRecords returns the raw record list (without bucket prefix) the
+// index would use for the bucket now, or nil if the bucket is empty.
+func (idx *Index) VerifBucketRecords(bucket uint32) ([]byte, error) {
+	idx.bucketLk.RLock()
+	defer idx.bucketLk.RUnlock()
+	records, err := idx.getRecordsFromBucket(BucketIndex(bucket))
+	if err != nil {
+		return nil, err
+	}
+	if records == nil {
+		return nil, nil
+	}
+	out := make([]byte, len(records))
+	copy(out, records)
+	return out, nil
+}
+
+// VerifCurrentFile returns the number of the index file being appended to.
+func (idx *Index) VerifCurrentFile() uint32 {
+	idx.flushLock.Lock()
+	defer idx.flushLock.Unlock()
+	return idx.fileNum
+}
+
+// VerifSizeBits returns the number of bucket bits.
+func (idx *Index) VerifSizeBits() uint8 { return idx.sizeBits }
